@@ -104,3 +104,7 @@ def forall(kind, fn):
 
 def lemma_forall(lem):
     pass
+
+
+def exists(kind, fn):
+    raise NotImplementedError('exists over an infinite domain cannot be evaluated natively')
